@@ -26,8 +26,14 @@ pub enum BodySpec {
     Bytes(Vec<u8>),
     Json(String),
     Form(Vec<(String, String)>),
-    /// a reader-backed body; `known_len` = whether its length is declared
-    Reader { bytes: Vec<u8>, known_len: bool },
+    /// a reader-backed body; `known_len` = whether its length is declared; `split`: the reader
+    /// delivers its bytes in two reads (two chained cursors, split at that position)
+    Reader {
+        bytes: Vec<u8>,
+        known_len: bool,
+        #[serde(default)]
+        split: Option<u16>,
+    },
     /// a typed value given to `body_json`: fields not in alphabetical order, an `f32` (by its bits),
     /// a nested struct, an option - things that do not survive a detour through `serde_json::Value`
     Typed { zeta: u32, alpha: String, mid: u32, flag: Option<bool> },
@@ -106,7 +112,17 @@ fn body_of(b: &BodySpec) -> Option<HBody> {
         BodySpec::Bytes(v) => HBody::from_bytes(v.clone()),
         BodySpec::Json(j) => HBody::from_json(&serde_json::from_str::<serde_json::Value>(j).unwrap()).unwrap(),
         BodySpec::Form(f) => HBody::from_form(f).unwrap(),
-        BodySpec::Reader { bytes, known_len } => HBody::from_reader(futures_util::io::Cursor::new(bytes.clone()), if *known_len { Some(bytes.len()) } else { None }),
+        BodySpec::Reader { bytes, known_len, split } => {
+            let len = if *known_len { Some(bytes.len()) } else { None };
+            match split {
+                None => HBody::from_reader(futures_util::io::Cursor::new(bytes.clone()), len),
+                Some(k) => {
+                    use futures_util::io::AsyncReadExt;
+                    let k = if bytes.is_empty() { 0 } else { *k as usize % bytes.len() };
+                    HBody::from_reader(futures_util::io::Cursor::new(bytes[..k].to_vec()).chain(futures_util::io::Cursor::new(bytes[k..].to_vec())), len)
+                }
+            }
+        }
         BodySpec::Typed { zeta, alpha, mid, flag } => HBody::from_json(&typed_body(*zeta, alpha, *mid, *flag)).unwrap(),
     })
 }
@@ -332,7 +348,7 @@ pub fn strategy() -> BoxedStrategy<Case> {
         2 => prop_oneof![Just(vec![]), prop::collection::vec(any::<u8>(), 1..10), prop::collection::vec(any::<u8>(), 5000..9000)].prop_map(BodySpec::Bytes),
         2 => json.prop_map(BodySpec::Json),
         2 => prop::collection::vec(("[a-zé]{1,4}", "[a-z &=é]{0,6}"), 0..3).prop_map(BodySpec::Form),
-        1 => (prop::collection::vec(any::<u8>(), 0..12), any::<bool>()).prop_map(|(bytes, known_len)| BodySpec::Reader { bytes, known_len }),
+        2 => (prop_oneof![prop::collection::vec(any::<u8>(), 0..12), prop::collection::vec(any::<u8>(), 1500..6000)], any::<bool>(), proptest::option::of(any::<u16>())).prop_map(|(bytes, known_len, split)| BodySpec::Reader { bytes, known_len, split }),
         2 => (any::<u32>(), "[a-zé\"]{0,5}", prop_oneof![any::<u32>(), Just(21.3f32.to_bits()), Just(0.1f32.to_bits()), Just(1e20f32.to_bits())], proptest::option::of(any::<bool>())).prop_map(|(zeta, alpha, mid, flag)| BodySpec::Typed { zeta, alpha, mid, flag }),
     ];
     let ct = prop_oneof![Just("application/xml".to_string()), Just("text/csv; charset=utf-8".to_string()), Just("image/png".to_string())];
@@ -353,7 +369,7 @@ pub fn strategy() -> BoxedStrategy<Case> {
 
 fn reproducer(sig: &str) -> Option<Case> {
     match sig {
-        "body-of-unknown-length-lost" => Some(Case { capability_api: false, method: 2, url: "http://example.com/".into(), headers: vec![], body: BodySpec::Reader { bytes: b"abc".to_vec(), known_len: false }, content_type_before: None, content_type_after: None, query: None, generic: true }),
+        "body-of-unknown-length-lost" => Some(Case { capability_api: false, method: 2, url: "http://example.com/".into(), headers: vec![], body: BodySpec::Reader { bytes: b"abc".to_vec(), known_len: false, split: None }, content_type_before: None, content_type_after: None, query: None, generic: true }),
         _ => None,
     }
 }
